@@ -153,7 +153,7 @@ def check(run):
         return
     found_before = len(run.violations) + len(run.known_hit)
     progs, metas = [], []
-    for _ in range(1500 if thorough else 500):
+    for _ in range(3000 if thorough else 500):
         lines, meta = history(rng, rng.choice(["x64", "x86", "a64", "rv"]), thorough)
         progs.append(lines)
         metas.append(meta)
